@@ -2,6 +2,7 @@ package interp
 
 import (
 	"go/constant"
+	"go/token"
 	"reflect"
 )
 
@@ -461,6 +462,27 @@ func vConstantValue(v reflect.Value) (c constant.Value) {
 		c = v.Interface().(constant.Value)
 	}
 	return
+}
+
+// constValue returns the exact constant value of a number, or nil.
+func constValue(v reflect.Value) constant.Value {
+	if !v.IsValid() {
+		return nil
+	}
+	switch t := v.Type(); {
+	case isConstantValue(t):
+		return v.Interface().(constant.Value)
+	case isUint(t):
+		return constant.MakeUint64(v.Uint())
+	case isInt(t):
+		return constant.MakeInt64(v.Int())
+	case isFloat(t):
+		return constant.MakeFloat64(v.Float())
+	case isComplex(t):
+		re, im := constant.MakeFloat64(real(v.Complex())), constant.MakeFloat64(imag(v.Complex()))
+		return constant.BinaryOp(re, token.ADD, constant.MakeImag(im))
+	}
+	return nil
 }
 
 func genValueInt(n *node) func(*frame) (reflect.Value, int64) {
